@@ -11,6 +11,7 @@ import os
 from props import common
 
 ID = "C07"
+NEEDS_BINARY = True
 TRUSTED_BASE = common.BASE_TRUSTED + [
     "C07: HashMap iteration order does not matter (the map is compared sorted by name)",
 ]
@@ -95,6 +96,28 @@ def run(ctx):
         rnd.append({"threads": rng.choice([1, 2, 3, 4, 5, 7, 8, 16]), "ops": ops})
     common.differential(ctx, rnd, encode, oracle_line, None, shrink_cands, "random 5-30 ops over 6-12 names",
                         trivial, describe)
+    # end to end: the names the drivers hand to the distributor.  Chain workspaces (file patches whose old and new
+    # names differ, linking real files through names that do not exist; every hunk depends on the previous change
+    # of its file): a file patch on the wrong worker sees the pristine file and fails, so --threads N must equal
+    # --threads 1
+    from props import C06, l3gen, l3common, ws
+    nchain = 60 if thorough else 14
+    for _ in range(nchain):
+        w = C06.gen_chain(rng)
+        cfg = l3gen.default_cfg()
+        r1, _, _ = l3gen.run_real(ctx.binary, w, cfg)
+        for th in rng.sample([2, 3, 4, 5, 8, 16], 2):
+            c2 = dict(cfg)
+            c2["threads"] = th
+            r2, out, _ = l3gen.run_real(ctx.binary, w, c2)
+            ctx.coverage["chain_pushes"] = ctx.coverage.get("chain_pushes", 0) + 1
+            if r2 != r1:
+                a, b = r1.split(" | "), r2.split(" | ")
+                ctx.violation({"kind": "related-names-on-different-workers", "threads": th, "workspace": l3common.ws_json(w),
+                               "only_sequential": [x[:160] for x in a if x not in b][:4], "only_parallel": [x[:160] for x in b if x not in a][:4],
+                               "output": out[-300:].decode("latin-1")})
+                break
+    ws.cleanup_all()
     ctx.coverage["exhaustive"] = False
     common.finish(ctx, "add-sequences (name, optional related name): corpus + all sequences of <=%d ops over 4 names "
                        "+ seeded random sequences of 5-30 ops over 6-12 names, thread counts 1..16; distinct = distinct "
